@@ -48,7 +48,7 @@ UNITS = [{
     'uses_types': ['VCellO', 'RefCell'],
     'prelude': PRELUDE,
     'fns': {
-        'impl LexicalEnvironment::new': {'props': X + ['C06'], 'ensures': [(X, 'm_env(r).len() == size')]},
+        'impl LexicalEnvironment::new': {'props': ['C06'], 'ensures': [(['C06'], 'm_env(r).len() == size')]},  # not on the collector chain
         'impl LexicalEnvironment::slot_len': {'props': X + ['C06'], 'ensures': [(X, _v.inst(SLOT_LEN_MODEL, 'm_env', e='self'))]},
         'impl LexicalEnvironment::get': {'props': X + ['C06'], 'requires': [_v.inst(GET_REQ, 'm_env', e='self', i='index')],
                                           'ensures': [(X, _v.inst(GET_MODEL, 'm_env', e='self', i='index'))]},
